@@ -49,7 +49,7 @@ pub const ENV_BRACES_VALUE: &str = "br{}ace";
 pub const ENV_TAIL_NAME: &str = "L4V_C07_TAIL";
 pub const ENV_TAIL_VALUE: &str = "d/app.log";
 
-const PATTERNS: [&str; 9] = [
+const PATTERNS: [&str; 12] = [
     "arch/{}.$ENV{L4V_C07_TAIL}",
     "$ENV{L4V_C07_DIR}/gen-{}/app.log",
     "app.{}.log",
@@ -59,6 +59,10 @@ const PATTERNS: [&str; 9] = [
     "deep/er/app-{}",
     "$ENV{L4V_C07_BR}/app.{}.log",
     "x-$ENV{L4V_C07_BR}-{}.log",
+    // (round 9) the index in a directory component that is not the file's immediate parent
+    "gen/{}/arch/app.log",
+    "n{}/keep/deep/app.{}.log",
+    "$ENV{L4V_C07_DIR}/{}/arch/er/app.log",
 ];
 
 pub fn archive_rel(pattern_rel: &str, idx: u64) -> String {
